@@ -2,3 +2,7 @@ import Proofs.Hyperslab
 import Proofs.Slice
 import Proofs.SliceTuple
 import Proofs.Stream
+import Proofs.StreamClient
+import Proofs.StreamDap4
+import Proofs.StreamFind
+import Proofs.StreamSeq
